@@ -507,6 +507,39 @@ class DatagramSocketAdapter(Path):
             self.log({"ev": "inner_close", "i": 1})
 
 
+class DatagramListenerAdapter(Path):
+    """The UDP listener the asyncio backend builds on a real socket: aclose() waits (shielded) for connection_lost()."""
+
+    name = "DatagramListenerSocketAdapter.aclose"
+
+    async def setup(self) -> None:
+        self.backend = _backend()
+        self.adapter = (await self.backend.create_udp_listeners("127.0.0.1", 0))[0]
+        self.closed_logged = False
+
+        async def stop() -> None:
+            try:
+                await asyncio.wait_for(asyncio.shield(self.adapter.aclose()), 2)
+            except BaseException:  # noqa: BLE001
+                pass
+
+        self.cleanup.append(stop)
+
+    def close(self) -> Awaitable[None]:
+        async def do() -> None:
+            try:
+                await self.adapter.aclose()
+            finally:
+                self._probe()
+
+        return do()
+
+    def _probe(self) -> None:
+        if self.adapter.is_closing() and not self.closed_logged:
+            self.closed_logged = True
+            self.log({"ev": "inner_close", "i": 1})
+
+
 class ListenerAdapter(Path):
     """The TCP listener of the asyncio backend while serve() is running: aclose() has one suspension point."""
 
@@ -743,6 +776,7 @@ PATHS: list[type[Path]] = [
     ServerSideTeardownBehindSender,
     DatagramEndpointBehindSender,
     UDPServerTwoListeners,
+    DatagramListenerAdapter,
 ]
 
 
@@ -793,7 +827,7 @@ async def _run_once(cls: type[Path], cancel_before: int | None, fail_inner: int,
         events.append({"ev": "hang"})
         task.cancel()
     else:
-        if isinstance(path, (SocketAdapter, DatagramSocketAdapter)):
+        if isinstance(path, (SocketAdapter, DatagramSocketAdapter, DatagramListenerAdapter)):
             path._probe()
         finished[0] = True
         if task.cancelled():
